@@ -86,7 +86,7 @@ def _build_kex(c):
     if prof == 'mixed':
         return gen.random_kex(rng, names, {'db': 8, 'gss': 2, 'unknown': 2, 'dup': 1}, (1, 12))
     if prof == 'special':
-        return gen.random_kex(rng, names, {'db': 5, 'gss': 2, 'unknown': 1, 'long': 1, 'punct': 1, 'nonutf8': 1.5}, (1, 8))
+        return gen.random_kex(rng, names, {'db': 5, 'gss': 2, 'unknown': 1, 'long': 1, 'punct': 1, 'nonutf8': 1.5, 'empty': 0.8}, (1, 8))
     if prof == 'dups':
         return gen.random_kex(rng, names, {'db': 3, 'dup': 3, 'gss': 1}, (2, 8))
     if prof == 'tiny':
